@@ -1,12 +1,15 @@
 (* C18 — the specialised Sudoku solver returns a valid completion whenever one exists.
-   Model: coq/Model/Sudoku.v (literal transcription of src/solvers/sudoku.rs: 81 variables — singleton
+   Model: coq/Model/Sudoku.v (literal transcription of src/solvers/sudoku.rs: the range test of `solve`
+   — a cell that is neither 0 nor 1..9 gives none —, 81 variables — singleton
    domain for a clue, 1..9 otherwise —, 27 alldiff propagators, then the equalities posted by the
    naked-single / hidden-single front end in up to 11 identical rounds, validation, Model::solve).
    A puzzle is the row-major list of the 81 cells of the `[[i32; 9]; 9]` argument (0 = empty);
    `solve_sudoku p : option (option grid)`: None = the model's recursion fuel ran out (never:
    sudoku_total), Some None = the code returns None, Some (Some g) = the code returns Some(g).
-   `length p = 81` is the type of the Rust argument; `clues_ok p` (every cell in 0..9) is the documented
-   input domain — outside it the soundness clause fails (sudoku_sound_out_of_range_refuted).
+   `length p = 81` is the type of the Rust argument and the only premise: `clues_ok p` (every cell in 0..9,
+   the documented input domain) is tested by the code itself since COMMIT_sudoku_clues
+   (sudoku_out_of_range_none); before, the soundness clause failed outside it
+   (sudoku_sound_out_of_range_refuted, about `solve_sudoku_prefix` = the code without the test).
    Statements only; proofs in Proofs/SudokuProofs.v. *)
 Require Import Selen.Model.Prelude Selen.Model.Dom Selen.Model.Views Selen.Model.PropDefs.
 Require Import Selen.Model.Props.Basic Selen.Model.Propagate Selen.Model.Search Selen.Model.EngineSpec.
@@ -66,7 +69,7 @@ Proof. exact SudokuProofs.tech_loop_fuel. Qed.
 Print Assumptions tech_loop_fuel.
 
 (* a returned grid is a complete valid Sudoku agreeing with every clue *)
-Theorem sudoku_sound : forall p g, length p = 81%nat -> clues_ok p ->
+Theorem sudoku_sound : forall p g, length p = 81%nat ->
   solve_sudoku p = Some (Some g) -> valid_sudoku g /\ agrees p g.
 Proof. exact SudokuProofs.sudoku_sound. Qed.
 Print Assumptions sudoku_sound.
@@ -89,7 +92,7 @@ Proof. exact SudokuProofs.sudoku_total. Qed.
 Print Assumptions sudoku_total.
 
 (* same verdict as the general solver on the plain model (81 variables 1..9, 27 alldiff, one equality per clue) *)
-Theorem agrees_general_solver : forall p, length p = 81%nat -> clues_ok p ->
+Theorem agrees_general_solver : forall p, length p = 81%nat ->
   verdict (solve_sudoku p) = verdict (solve_general p).
 Proof. exact SudokuProofs.agrees_general_solver. Qed.
 Print Assumptions agrees_general_solver.
@@ -127,12 +130,23 @@ Theorem sudoku_string_none : forall bs, solve_sudoku_string bs = Some None ->
 Proof. exact SudokuProofs.sudoku_string_none. Qed.
 Print Assumptions sudoku_string_none.
 
-(* known class kf_clue_out_of_range: with a clue outside 0..9 (here 10 in the first cell) a grid containing
-   it is returned — not a valid Sudoku — while the general solver reports no solution *)
+(* a cell outside 0..9 (the argument type admits it) admits no completion and the answer is none *)
+Theorem sudoku_out_of_range_none : forall p, length p = 81%nat -> ~ clues_ok p -> solve_sudoku p = Some None.
+Proof. exact SudokuProofs.sudoku_out_of_range_none. Qed.
+Print Assumptions sudoku_out_of_range_none.
+
+(* former class kf_clue_out_of_range (repaired, COMMIT_sudoku_clues): WITHOUT the range test of `solve`
+   (`solve_sudoku_prefix`), with a clue outside 0..9 (here 10 in the first cell) a grid containing it is
+   returned — not a valid Sudoku — while the general solver reports no solution ... *)
 Theorem sudoku_sound_out_of_range_refuted :
-  exists p g, length p = 81%nat /\ solve_sudoku p = Some (Some g) /\ ~ valid_sudoku g /\ verdict (solve_general p) = Some false.
+  exists p g, length p = 81%nat /\ solve_sudoku_prefix p = Some (Some g) /\ ~ valid_sudoku g /\ verdict (solve_general p) = Some false.
 Proof. exact SudokuProofs.sudoku_sound_out_of_range_refuted. Qed.
 Print Assumptions sudoku_sound_out_of_range_refuted.
+(* ... and the repaired solver answers none on that puzzle, like the general solver *)
+Theorem sudoku_out_of_range_repaired :
+  solve_sudoku bad_puzzle = Some None /\ verdict (solve_general bad_puzzle) = Some false.
+Proof. exact SudokuProofs.sudoku_out_of_range_repaired. Qed.
+Print Assumptions sudoku_out_of_range_repaired.
 
 (* non-vacuity: the documentation example is solved, after the front end posted 11 x 24 equalities *)
 Theorem c18_nonvacuous :
